@@ -99,10 +99,23 @@ def doCast (l : Line) : Option String := do
     | .typeError => "err:type"
   some s!"ok safe={if castSafe vk then 1 else 0} outcome={o}"
 
+/-- `dispatch hasout=0|1 optional=0|1 out=0|1` answers `ok kind=… user_out=0|1`. -/
+def doDispatch (l : Line) : Option String := do
+  let h ← l.bool? "hasout"
+  let o ← l.bool? "optional"
+  let g ← l.bool? "out"
+  let k := callKind h o
+  let ks := match k with
+    | .oopOnly => "oopOnly"
+    | .dual => "dual"
+    | .ipOnly => "ipOnly"
+  some s!"ok kind={ks} user_out={if userGetsOut k g then 1 else 0}"
+
 def handle (l : Line) : Option String :=
   match l.op with
   | "interp" => doInterp l
   | "cast" => doCast l
+  | "dispatch" => doDispatch l
   | _ => none
 
 def main : IO Unit := driverLoop handle
